@@ -12,6 +12,8 @@ use std::sync::{Arc, Mutex};
 #[derive(Default)]
 pub struct Counts {
     counters: Mutex<BTreeMap<String, Arc<AtomicU64>>>,
+    /// the same increments, kept apart by (name, label values)
+    labelled: Mutex<BTreeMap<(String, Vec<String>), Arc<AtomicU64>>>,
     histograms: Mutex<BTreeMap<String, Arc<Mutex<Vec<f64>>>>>,
 }
 
@@ -24,6 +26,14 @@ impl Counts {
             .map(|c| c.load(Ordering::SeqCst))
             .unwrap_or(0)
     }
+    /// sum over the counters called `name` that carry a label with this value
+    pub fn counter_with_label_value(&self, name: &str, value: &str) -> u64 {
+        self.labelled.lock().unwrap().iter().filter(|((n, l), _)| n == name && l.iter().any(|v| v == value)).map(|(_, c)| c.load(Ordering::SeqCst)).sum()
+    }
+    /// label value lists under which `name` was registered
+    pub fn label_sets(&self, name: &str) -> Vec<Vec<String>> {
+        self.labelled.lock().unwrap().keys().filter(|(n, _)| n == name).map(|(_, l)| l.clone()).collect()
+    }
     pub fn histogram_len(&self, name: &str) -> usize {
         self.histograms.lock().unwrap().get(name).map(|h| h.lock().unwrap().len()).unwrap_or(0)
     }
@@ -32,13 +42,15 @@ impl Counts {
 #[derive(Clone, Default)]
 pub struct CountingRecorder(pub Arc<Counts>);
 
-struct C(Arc<AtomicU64>);
+struct C(Arc<AtomicU64>, Arc<AtomicU64>);
 impl CounterFn for C {
     fn increment(&self, value: u64) {
         self.0.fetch_add(value, Ordering::SeqCst);
+        self.1.fetch_add(value, Ordering::SeqCst);
     }
     fn absolute(&self, value: u64) {
         self.0.fetch_max(value, Ordering::SeqCst);
+        self.1.fetch_max(value, Ordering::SeqCst);
     }
 }
 struct H(Arc<Mutex<Vec<f64>>>);
@@ -67,7 +79,9 @@ impl Recorder for CountingRecorder {
             .entry(key.name().to_string())
             .or_default()
             .clone();
-        Counter::from_arc(Arc::new(C(c)))
+        let labels: Vec<String> = key.labels().map(|l| l.value().to_string()).collect();
+        let l = self.0.labelled.lock().unwrap().entry((key.name().to_string(), labels)).or_default().clone();
+        Counter::from_arc(Arc::new(C(c, l)))
     }
     fn register_gauge(&self, _key: &Key, _metadata: &Metadata<'_>) -> Gauge {
         Gauge::from_arc(Arc::new(G))
